@@ -415,10 +415,6 @@ def waived : String → List Defect
   | "aten::normal.float_Tensor" => [.clause .kwBound]
   | "aten::normal.Tensor_float" => [.clause .kwBound, .clause .requiredBound]
   | "aten::normal.Tensor_Tensor" => [.clause .kwBound]
-  | "aten::rand_like" => [.clause .kwBound]
-  | "aten::randint_like" => [.clause .kwBound]
-  | "aten::randint_like.low_dtype" => [.clause .kwBound]
-  | "aten::randn_like" => [.clause .kwBound]
   | "aten::tensor.bool" => [.clause .kwBound, .clause .requiredBound]
   | "aten::tensor.float" => [.clause .kwBound, .clause .requiredBound]
   | "aten::tensor.int" => [.clause .kwBound, .clause .requiredBound]
